@@ -3,18 +3,22 @@
 -> coq/Generated/StripFn.v (C01, C03).
 
 TRANSLATED (tools/rs2v) into Gallina over the vocabulary of the hand model (Model/Strip.v):
-  is_printable_bytes, is_utf8_continuation, next_str, next_bytes,
+  is_printable_bytes, is_utf8_continuation, next_str, next_bytes (both `position` closures each,
+  with their captured `*state` / `*utf8parser` and `return`s),
   <VtUtf8Receiver as utf8parse::Receiver>::{codepoint, invalid_sequence}, Utf8Parser::add,
-  and the four iterator `next` methods (StrippedStr, StripStrIter, StrippedBytes, StripBytesIter).
+  the four Iterator::next methods (StrippedStr, StripStrIter, StrippedBytes, StripBytesIter),
+  StrippedStr::new, StrippedBytes::new, strip_str, strip_bytes, StrippedBytes::into_vec,
+  and anstyle_parse::state::{state_change_, state_change} (again, as gs_*: C01 / C03 then depend
+  on nothing else of Generated/ParserFn.v).
 Proofs/StripGen.v proves the translations equal to the hand model the theorems of C01 / C03
-are about.  `state_change` is the translation of Generated/ParserFn.v (g_state_change).
+are about.
 
-NOT translated, pinned by token hash:
-  from_utf8_unchecked -- unsafe; std::str::from_utf8 / from_utf8_unchecked are std internals
-      (the model identifies a `&str` with its bytes, so the function is the identity there).
+NOT translated, pinned by token hash (OPAQUE below, each with its reason):
+  from_utf8_unchecked, <StrippedStr as Display>::fmt, StrippedStr::to_string,
+  StripStr::strip_next, StripBytes::strip_next; definitions::unpack (transmute; as in gen_fn_parser.py).
 `utf8parse::Parser::advance` is a third-party dependency: hand model Model/Utf8parse.v
 (u8_parser_advance); the call `self.utf8_parser.advance(&mut receiver, byte)` is translated as
-"run the hand model, then call the TRANSLATED receiver method the outcome names"."""
+"run the hand model, then call the TRANSLATED receiver method the outcome names" (m_u8_advance)."""
 import os
 import sys
 
